@@ -39,6 +39,8 @@ REGISTRY = {
     "C10": ("gateway", "run_c10"),
     "C11": ("gateway", "run_c11"),
     "C12": ("gateway", "run_c12"),
+    "C13": ("persist", "run_c13"),
+    "C14": ("persist", "run_c14"),
     "C15": ("fileops", "run_c15"),
     "C16": ("lifecycle", "run_c16"),
     "C17": ("stream", "run_c17"),
